@@ -67,22 +67,10 @@ def addAt (l : Chain) (x index : Nat) (m : Mem) : Stat × Chain × Mem :=
   let l := if index = 0 then { l with head := some j } else l
   (.ok, { l with size := l.size + 1 }, m)
 
-/-- `link_all_externally`: one node per element of `src`; on a refusal every copy made so far is
-released.  Returns the data of the external chain. -/
-def linkAll (src : Chain) : Nat → Ptr → List Nat → Mem → Bool × List Nat × Mem
-  | 0, _, acc, m => (true, acc, m)
-  | k + 1, ins, acc, m =>
-    let a := m.alloc
-    if !a.1 then (false, [], Mem.freeN acc.length a.2) else
-    let m := a.2.check (ins.valid src.nodes.length)
-    linkAll src k (ins.next src.nodes.length) (acc ++ [src.data ins]) m
-def linkAllExternally (src : Chain) (m : Mem) : Bool × List Nat × Mem :=
-  linkAll src src.size src.head [] m
-
 /-- `add_all_to_empty` -/
 def addAllToEmpty (l1 l2 : Chain) (m : Mem) : Stat × Chain × Mem :=
   if l2.size = 0 then (.ok, l1, m) else
-  let r := linkAllExternally l2 m
+  let r := l2.linkAllExternally m
   if !r.1 then (.errAlloc, l1, r.2.2) else
   (.ok, { nodes := r.2.1, head := some 0, tail := some (r.2.1.length - 1), size := l2.size }, r.2.2)
 
@@ -91,7 +79,7 @@ def addAllAt (l1 l2 : Chain) (index : Nat) (m : Mem) : Stat × Chain × Mem :=
   if l2.size = 0 then (.ok, l1, m) else
   if index > l1.size then (.errOutOfRange, l1, m) else
   if l1.size = 0 then addAllToEmpty l1 l2 m else
-  let r := linkAllExternally l2 m
+  let r := l2.linkAllExternally m
   if !r.1 then (.errAlloc, l1, r.2.2) else
   let m := r.2.2
   let xs := r.2.1
@@ -304,20 +292,12 @@ def filter (p : Nat → Bool) (l : Chain) (m : Mem) : Stat × Option Chain × Me
     let r := buildLoop l (fun v => if p v then some v else none) l.nodes.length l.head dst c.2.2
     if r.1 != .ok then (r.1, none, r.2.2) else (.ok, some r.2.1, r.2.2)
 
-/-- `for (i = 0; i < k; i++) { … node->data …; node = node->next; }` -/
-def collect (l : Chain) : Nat → Ptr → Mem → List Nat × Mem
-  | 0, _, m => ([], m)
-  | k + 1, node, m =>
-    let m := m.check (node.valid l.nodes.length)
-    let r := collect l k (node.next l.nodes.length) m
-    (l.data node :: r.1, r.2)
-
 /-- `cc_list_to_array` (the array block belongs to the caller) -/
 def toArray (l : Chain) (m : Mem) : Stat × Option (List Nat) × Mem :=
   if l.size = 0 then (.errInvalidRange, none, m) else
   let a := m.alloc
   if !a.1 then (.errAlloc, none, a.2) else
-  let r := collect l l.size l.head a.2
+  let r := l.collect l.size l.head a.2
   (.ok, some r.1, r.2)
 
 /-- `cc_list_contains` -/
@@ -330,20 +310,13 @@ def indexOf (cmp : Nat → Nat → Int) (l : Chain) (x : Nat) : Stat × Option N
   | some i => (.ok, some i)
   | none => (.errOutOfRange, none)
 
-/-- `for (i = 0; i < k; i++) { node->data = elements[i]; node = node->next; }` -/
-def writeBack : Nat → Nat → Ptr → List Nat → Chain → Mem → Chain × Mem
-  | 0, _, _, _, l, m => (l, m)
-  | k + 1, i, node, vals, l, m =>
-    let m := m.check (node.valid l.nodes.length && decide (i < vals.length))
-    writeBack k (i + 1) (node.next l.nodes.length) vals (l.setData node (vals.getD i 0)) m
-
 /-- `cc_list_sort`: `to_array`, `qsort` (the parameter `sortFn`), write back, release -/
 def sort (sortFn : List Nat → List Nat) (l : Chain) (m : Mem) : Stat × Chain × Mem :=
   let t := toArray l m
   match t.2.1 with
   | none => (t.1, l, t.2.2)
   | some arr =>
-    let r := writeBack l.size 0 l.head (sortFn arr) l t.2.2
+    let r := Chain.writeBack l.size 0 l.head (sortFn arr) l t.2.2
     (.ok, r.1, r.2.free)
 
 /-- the merge sort of `split`/`merge`: the left run has `size / 2` nodes, the right run the rest;
@@ -407,9 +380,6 @@ structure Iter where
   last  : Ptr := none
   next  : Ptr := none
   deriving Repr, DecidableEq
-
-/-- `x - 1` in `size_t` -/
-def wdec (x : Nat) : Nat := if x = 0 then 2 ^ 64 - 1 else x - 1
 
 /-- `cc_list_iter_init` -/
 def iterInit (l : Chain) : Iter := { index := 0, last := none, next := l.head }
